@@ -62,6 +62,14 @@ type bundleOpts struct {
 	illTyped   int
 	noFloatFmt bool // avoid float results whose print form differs between backends
 	jsSafe     bool // restrict to the subset both backends define (C04)
+	// hooks of other generators (nil = no change of behaviour or of the random stream):
+	extraCmd        func(g *bundleGen, s *gScope, depth int) (string, bool) // consulted first by cmd()
+	extraLit        func(g *bundleGen, t ty) (string, bool)                 // consulted first by lit()
+	extraDirectives []string                                                // more print directive suffixes
+	noLog           bool                                                    // no {log} commands
+	extraExpr       func(e *scopedExprGen, depth int, t ty) (string, bool)  // consulted first by expr()
+	extraValue      func(g *bundleGen, t ty) (interface{}, bool)            // consulted first by valueOf()
+	allParams       bool                                                    // dataFor supplies optional params too
 	ij         bool // expressions may read $ij.n / $ij.s (interpreter checks)
 }
 
@@ -159,6 +167,11 @@ func (e *scopedExprGen) v(t ty) (string, bool) {
 
 func (e *scopedExprGen) lit(t ty) string {
 	r := e.g.r
+	if e.g.opts.extraLit != nil {
+		if s, ok := e.g.opts.extraLit(e.g, t); ok {
+			return s
+		}
+	}
 	switch t {
 	case tInt:
 		return strconv.Itoa(r.Intn(12))
@@ -212,6 +225,11 @@ func (e *scopedExprGen) atom(t ty) string {
 
 func (e *scopedExprGen) expr(depth int, t ty) string {
 	r := e.g.r
+	if e.g.opts.extraExpr != nil {
+		if s, ok := e.g.opts.extraExpr(e, depth, t); ok {
+			return s
+		}
+	}
 	if depth <= 0 || r.Intn(3) == 0 {
 		return e.atom(t)
 	}
@@ -300,9 +318,13 @@ func (g *bundleGen) print(s *gScope, depth int) string {
 	e := g.expr(s, depth, t)
 	dir := ""
 	if g.opts.directives && g.r.Intn(4) == 0 {
-		dir = simpleDirectives[g.r.Intn(len(simpleDirectives))]
+		dirs := simpleDirectives
+		if len(g.opts.extraDirectives) > 0 {
+			dirs = append(append([]string(nil), simpleDirectives...), g.opts.extraDirectives...)
+		}
+		dir = dirs[g.r.Intn(len(dirs))]
 		if g.r.Intn(4) == 0 {
-			dir += simpleDirectives[g.r.Intn(len(simpleDirectives))]
+			dir += dirs[g.r.Intn(len(dirs))]
 		}
 		// long chains: the parser's directive slice then has spare capacity (len 3 cap 4, len 5-7 cap 8)
 		if g.r.Intn(5) == 0 {
@@ -350,6 +372,11 @@ func (g *bundleGen) block(outer *gScope, depth int) string {
 
 func (g *bundleGen) cmd(s *gScope, depth int) string {
 	r := g.r
+	if g.opts.extraCmd != nil {
+		if out, ok := g.opts.extraCmd(g, s, depth); ok {
+			return out
+		}
+	}
 	choice := r.Intn(20)
 	if depth <= 0 && choice >= 8 {
 		choice = r.Intn(8)
@@ -465,7 +492,7 @@ func (g *bundleGen) cmd(s *gScope, depth int) string {
 			return "{css " + g.expr(s, 0, tStr) + ", suf-fix}"
 		}
 		return "{css my-class}"
-	case choice == 18:
+	case choice == 18 && !g.opts.noLog:
 		g.stat("log")
 		return "{log}" + g.block(s, 0) + "{/log}"
 	case choice == 19 && g.opts.msgs:
@@ -483,7 +510,7 @@ func (g *bundleGen) call(s *gScope, depth int) string {
 	}
 	var params []string
 	for _, p := range callee.params {
-		if p.optional && g.r.Intn(3) == 0 {
+		if p.optional && !g.opts.allParams && g.r.Intn(3) == 0 {
 			continue
 		}
 		if p.t == tStr && g.r.Intn(3) == 0 {
@@ -529,7 +556,11 @@ func (g *bundleGen) msg(s *gScope) string {
 		for i := 0; i < n; i++ {
 			switch g.r.Intn(4) {
 			case 0:
-				b.WriteString([]string{"Hello ", "<b>", "</b>", "<br/>", "a&b ", "<a href=\"x\">"}[g.r.Intn(6)])
+				tags := []string{"Hello ", "<b>", "</b>", "<br/>", "a&b ", "<a href=\"x\">"}
+				if g.opts.jsSafe {
+					tags[5] = "<a href='x'>" // a double quote is escaped differently by the two backends (c04:escapeHtml-double-quote)
+				}
+				b.WriteString(tags[g.r.Intn(6)])
 			default:
 				b.WriteString(g.print(s, 1) + " ")
 			}
@@ -570,7 +601,19 @@ func (g *bundleGen) template(f *gFile, short string) *gTemplate {
 	// every param must be used (a param shadowed by a top-level let cannot be referenced after it: put the use first)
 	for i, p := range t.params {
 		if !s.used[i] {
-			body = "{$" + p.name + "}" + body
+			use := "{$" + p.name + "}"
+			if g.opts.jsSafe {
+				// printing a list, a map or null is outside the subset both backends define
+				switch p.t {
+				case tList:
+					use = "{length($" + p.name + ")}"
+				case tMap:
+					use = "{$" + p.name + ".a}"
+				case tNull:
+					use = "{$" + p.name + " ?: 'n'}"
+				}
+			}
+			body = use + body
 		}
 	}
 	t.body = body
@@ -593,9 +636,9 @@ func newBundleGen(r *RNG, opts bundleOpts) *bundleGen {
 func (g *bundleGen) bundle() *gBundle {
 	g.all = nil
 	b := &gBundle{}
-	nf := 1 + g.r.Intn(3)
+	nf := 1 + g.r.Intn(4)
 	for i := 0; i < nf; i++ {
-		f := &gFile{name: fmt.Sprintf("f%d.soy", i), ns: []string{"ns.a", "ns.b", "other"}[i]}
+		f := &gFile{name: fmt.Sprintf("f%d.soy", i), ns: []string{"ns.a", "ns.a.sub", "ns.b", "other"}[i]}
 		switch g.r.Intn(5) {
 		case 0:
 			f.autoesc = "false"
@@ -664,7 +707,7 @@ func (f *gFile) source() string {
 func (g *bundleGen) dataFor(t *gTemplate) map[string]interface{} {
 	m := map[string]interface{}{}
 	for _, p := range t.params {
-		if p.optional && g.r.Intn(3) == 0 {
+		if p.optional && !g.opts.allParams && g.r.Intn(3) == 0 {
 			continue
 		}
 		m[p.name] = g.valueOf(p.t)
@@ -677,6 +720,11 @@ func (g *bundleGen) dataFor(t *gTemplate) map[string]interface{} {
 
 func (g *bundleGen) valueOf(t ty) interface{} {
 	r := g.r
+	if g.opts.extraValue != nil {
+		if v, ok := g.opts.extraValue(g, t); ok {
+			return v
+		}
+	}
 	switch t {
 	case tInt:
 		return int64([]int{0, 1, 2, 3, 7, -1, 12, 1 << 40}[r.Intn(8)])
